@@ -771,12 +771,12 @@ func (p *Prog) pairCount(fn *ssa.Function, retA, cntA *ssa.Alloc) (bool, string)
 				if ld, ok := ap.Call.Args[0].(*ssa.UnOp); !ok || ld.X != ssa.Value(rp) {
 					return false, "append base is not *ret in " + p.Name(g)
 				}
-				if !appendsExactlyOne(ap) {
-					return false, "append of other than exactly one element in " + p.Name(g) + " at " + p.Pos(ap.Pos())
+				if _, okAmt := appendAmount(p.canonFor(g), ap); !okAmt {
+					return false, "append of an unrecognised number of elements in " + p.Name(g) + " at " + p.Pos(ap.Pos())
 				}
-				// paired increment in the same block
-				if !hasIncrement(x.Block(), cp) {
-					return false, "append at " + p.Pos(ap.Pos()) + " is not paired with *cnt++ in its block"
+				// paired increment in the same block, by the same amount
+				if !sameAmounts(p.canonFor(g), x.Block(), rp, cp) {
+					return false, "append at " + p.Pos(ap.Pos()) + " is not paired with an advance of *cnt by the number of elements appended in its block"
 				}
 			case ssa.CallInstruction:
 				h := staticCallee(x.Common())
@@ -807,11 +807,14 @@ func (p *Prog) pairCount(fn *ssa.Function, retA, cntA *ssa.Alloc) (bool, string)
 			switch x := ref.(type) {
 			case *ssa.UnOp, *ssa.DebugRef, ssa.CallInstruction:
 			case *ssa.Store:
-				if x.Addr != ssa.Value(cp) || !isIncrementOf(x.Val, cp) {
-					return false, "counter written other than by ++ in " + p.Name(g)
+				if x.Addr != ssa.Value(cp) {
+					return false, "counter written other than by an advance in " + p.Name(g)
 				}
-				if countAppendStores(x.Block(), rp) != countIncrements(x.Block(), cp) {
-					return false, "counter increment at " + p.Pos(x.Pos()) + " is not paired with exactly one append in its block"
+				if _, okAmt := incrementAmount(p.canonFor(g), x.Val, cp); !okAmt {
+					return false, "counter written other than by ++ / += len(appended) in " + p.Name(g)
+				}
+				if !sameAmounts(p.canonFor(g), x.Block(), rp, cp) {
+					return false, "counter advance at " + p.Pos(x.Pos()) + " is not paired with an append of as many elements in its block"
 				}
 			default:
 				return false, "unrecognised use of the counter in " + p.Name(g)
@@ -830,7 +833,72 @@ func (p *Prog) pairCount(fn *ssa.Function, retA, cntA *ssa.Alloc) (bool, string)
 		names = append(names, p.Name(f))
 	}
 	sort.Strings(names)
-	return true, "in " + strings.Join(names, ",") + " every append of one element to *ret is paired with *cnt++ and nothing else writes them, so cnt == len(ret)"
+	return true, "in " + strings.Join(names, ",") + " every append to *ret is paired, in its block, with an advance of *cnt by the number of elements appended, and nothing else writes them, so cnt == len(ret)"
+}
+
+// appendAmount: how many elements an append adds — "1" for a single element, "len(x)" for append(s, x...).
+func appendAmount(cz *canonizer, ap *ssa.Call) (string, bool) {
+	if appendsExactlyOne(ap) {
+		return "1", true
+	}
+	if len(ap.Call.Args) == 2 {
+		if _, isSl := ap.Call.Args[1].(*ssa.Slice); !isSl {
+			return "len(" + cz.of(ap.Call.Args[1]) + ")", true
+		}
+	}
+	return "", false
+}
+
+// incrementAmount: *cp + 1 or *cp + len(x).
+func incrementAmount(cz *canonizer, v ssa.Value, cp ssa.Value) (string, bool) {
+	bo, ok := v.(*ssa.BinOp)
+	if !ok || bo.Op != token.ADD {
+		return "", false
+	}
+	ld, ok := bo.X.(*ssa.UnOp)
+	if !ok || ld.Op != token.MUL || ld.X != cp {
+		return "", false
+	}
+	if k, isK := constInt(bo.Y); isK {
+		if k == 1 {
+			return "1", true
+		}
+		return "", false
+	}
+	if c, isC := bo.Y.(*ssa.Call); isC && isBuiltin(c, "len") {
+		return "len(" + cz.of(c.Call.Args[0]) + ")", true
+	}
+	return "", false
+}
+
+// sameAmounts: within the block the appends to *rp and the advances of *cp add up to the same amounts.
+func sameAmounts(cz *canonizer, b *ssa.BasicBlock, rp, cp ssa.Value) bool {
+	var as, is []string
+	for _, in := range b.Instrs {
+		st, ok := in.(*ssa.Store)
+		if !ok {
+			continue
+		}
+		if st.Addr == rp {
+			if ap, isC := st.Val.(*ssa.Call); isC {
+				if amt, okA := appendAmount(cz, ap); okA {
+					as = append(as, amt)
+					continue
+				}
+			}
+			return false
+		}
+		if st.Addr == cp {
+			if amt, okI := incrementAmount(cz, st.Val, cp); okI {
+				is = append(is, amt)
+				continue
+			}
+			return false
+		}
+	}
+	sort.Strings(as)
+	sort.Strings(is)
+	return len(as) > 0 && strings.Join(as, "+") == strings.Join(is, "+")
 }
 
 func appendsExactlyOne(ap *ssa.Call) bool {
